@@ -40,6 +40,7 @@ structure Live where
   rng : Mt19937
 
 def parseAux (path : String) : IO (List (SurfaceAux Float)) := do
+  if !(← System.FilePath.pathExists path) then return []
   let txt ← IO.FS.readFile path
   let mut out : Array (SurfaceAux Float) := #[]
   let mut tris : Array (Tri Float) := #[]
